@@ -1,29 +1,30 @@
 /-
   PyIR interpreter: the meaning of the translated Python fragment.
 
-  Total by construction: `fuel` bounds the *nesting depth* (expression depth,
-  statement nesting, call depth); loops and comprehensions recurse on the value
-  being iterated, not on fuel.  Running out of fuel is the distinct error
-  `.unmodelled "fuel"`, which no theorem's right-hand side ever is — so an
-  equality `interp F … = model …` also says the fuel sufficed.
+  **Shape.**  A run does not evaluate the primitive tests on payloads (`i < 1`, `s == "-"`, "does `int(s)` parse")
+  itself: it returns a *decision tree* (`Tree`) whose inner nodes are those tests (`Query`) and whose leaves are results.
+  The meaning of a run is `Tree.eval H`, which answers every query with the real predicate (`Query.holds`).  This makes
+  symbolic execution a matter of kernel evaluation: on an input with a symbolic payload (`.int i`, `.str s`) the run
+  reduces, by `rfl`, to an explicit tree `ask (intLt i 1) (done r₁) (done r₂)`; a theorem about *every* `i` is then a
+  case split on the queries (`Tree.eval_ask_of`), with concrete leaves.  Nothing is assumed about the trees: the
+  statements are about `Tree.eval`, i.e. about the ordinary semantics.
 
-  Python semantics implemented here (each is a place where a wrong reading would
-  make the tie meaningless, so they are listed):
+  **Totality.**  `fuel` bounds the nesting depth (expression depth, statement nesting, call depth); loops and
+  comprehensions recurse on the value iterated, not on fuel.  Running out of fuel is the distinct error
+  `.unmodelled "fuel"`, which no theorem's right-hand side is — an equality `run … = model …` also says the fuel sufficed.
+
+  **Python semantics implemented here** (each is a place where a wrong reading would make the tie meaningless):
   * `and` / `or` return an operand, not a boolean; truthiness as CPython's;
   * chained comparisons evaluate the middle operand once and short-circuit;
-  * `<` on `int`/`bool` is numeric, on `str` lexicographic by code point, anything
-    else (incl. `None`, `int` vs `str`) is `TypeError`;
-  * `==` never raises; `True == 1`; `is` on `None`/`True`/`False`/classes is identity,
-    on other values it is *not modelled* (error) — the translator only emits `is` against
-    those constants;
-  * `isinstance(True, int)` holds; a class is an instance test through the
-    translated MRO;
-  * attribute lookup: instance dictionary, then a zero-argument `property`‑kind
-    method through the MRO; `enum.value` / `enum.name` through the enum table;
-  * `super(C, self).m` resolves to the first definer of `m` after `C` in the MRO
-    of the *instance's* class;
-  * `try` handlers run in the environment the `try` was entered with (the
-    translator restricts `try` bodies to a single statement, where that is exact).
+  * `<` on `int`/`bool` is numeric, on `str` lexicographic by code point, anything else (incl. `None`, `int` vs `str`)
+    is `TypeError`; `==` never raises; `True == 1`;
+  * `is` on `None` / `True` / `False` / classes is identity; on anything else it is *not modelled* (error);
+  * `isinstance(True, int)` holds; a class is an instance test through the translated MRO;
+  * attribute lookup: instance dictionary, then a one-parameter (property-like) method through the MRO;
+    `enum.value` / `enum.name` through the enum table;
+  * `super(C, self).m` resolves to the first definer of `m` after `C` in the MRO of the *instance's* class;
+  * `try` handlers run in the environment the `try` was entered with (the translator restricts `try` bodies to a
+    single statement, where that is exact); fuel exhaustion and unmodelled constructs are never caught.
 -/
 import MafModel.PyIR.Syntax
 open Py
@@ -41,60 +42,130 @@ structure Host where
 
 def outOfFuel : PyErr := .unmodelled "fuel"
 
+/-! ### decision trees -/
+
+/-- the primitive tests on payloads -/
+inductive Query where
+  | intLt (a b : Int)
+  | intEq (a b : Int)
+  | textLt (a b : Text)
+  | textEq (a b : Text)
+  | nameEq (a b : String)
+  | textEmpty (s : Text)
+  /-- does the host parser `kind` ∈ {int, float, uuid} accept `s` -/
+  | parses (kind : String) (s : Text)
+  deriving Repr, Inhabited
+
+def Query.holds (H : Host) : Query → Bool
+  | .intLt a b => decide (a < b)
+  | .intEq a b => a == b
+  | .textLt a b => decide (a < b)
+  | .textEq a b => a == b
+  | .nameEq a b => a == b
+  | .textEmpty s => s.isEmpty
+  | .parses "int" s => (pyInt s).isSome
+  | .parses "float" s => (H.floatParse s).isSome
+  | .parses "uuid" s => (pyUuid s).isSome
+  | .parses _ _ => false
+
+inductive Tree (α : Type) where
+  | done (a : α)
+  | ask (q : Query) (t f : Tree α)
+  deriving Inhabited
+
+def Tree.eval (H : Host) : Tree α → α
+  | .done a => a
+  | .ask q t f => if q.holds H then t.eval H else f.eval H
+
+def Tree.bind : Tree α → (α → Tree β) → Tree β
+  | .done a, k => k a
+  | .ask q t f, k => .ask q (t.bind k) (f.bind k)
+
+theorem Tree.eval_bind (H : Host) (t : Tree α) (k : α → Tree β) : (t.bind k).eval H = (k (t.eval H)).eval H := by
+  induction t with
+  | done a => rfl
+  | ask q t f iht ihf => simp only [Tree.bind, Tree.eval]; split <;> assumption
+
+/-- evaluation of a tree whose head node is known (by kernel evaluation: `h := rfl`) -/
+theorem Tree.eval_ask_of {t T F : Tree α} {q : Query} (H : Host) (h : t = .ask q T F) :
+    t.eval H = if q.holds H then T.eval H else F.eval H := by subst h; rfl
+
+theorem Tree.eval_done_of {t : Tree α} {a : α} (H : Host) (h : t = .done a) : t.eval H = a := by subst h; rfl
+
+/-- `P` holds at every leaf, under the answers of the queries on the way to it -/
+def Tree.Forall (H : Host) (P : α → Prop) : Tree α → Prop
+  | .done a => P a
+  | .ask q t f => (q.holds H = true → t.Forall H P) ∧ (q.holds H = false → f.Forall H P)
+
+theorem Tree.Forall.eval {H : Host} {P : α → Prop} : {t : Tree α} → t.Forall H P → P (t.eval H)
+  | .done _, h => h
+  | .ask q t f, h => by
+    unfold Tree.eval
+    cases hq : q.holds H
+    · simpa using Tree.Forall.eval (h.2 hq)
+    · simpa using Tree.Forall.eval (h.1 hq)
+
+/-- one Boolean test -/
+def test (q : Query) : Tree Bool := .ask q (.done true) (.done false)
+
+/-- the interpreter's monad: a decision tree over results or Python exceptions -/
+def M (α : Type) := Tree (Except PyErr α)
+
+def M.ok (a : α) : M α := Tree.done (.ok a)
+def M.err (e : PyErr) : M α := Tree.done (.error e)
+def M.bind (x : M α) (k : α → M β) : M β :=
+  Tree.bind x (fun r => match r with | .ok a => k a | .error e => Tree.done (.error e))
+/-- a pure `Except` computation -/
+def M.ofExcept : Except PyErr α → M α := Tree.done
+/-- a decision without exception -/
+def M.ofTree (t : Tree α) : M α := Tree.bind t (fun a => Tree.done (.ok a))
+def M.tryCatch (x : M α) (h : PyErr → M α) : M α :=
+  Tree.bind x (fun r => match r with | .ok a => Tree.done (.ok a) | .error e => h e)
+def M.eval (H : Host) (x : M α) : Except PyErr α := Tree.eval H x
+
 /-! ### values -/
-
-/-! ### primitive tests on payloads
-
-Wrapped as irreducible definitions so that kernel evaluation of an interpreted body on a *symbolic* payload stops at a
-readable atom (`intLt i 1`) instead of unfolding `Int.decLt`; `Prim.*_eq` give their meaning. -/
-namespace Prim
-@[irreducible] def intLt (a b : Int) : Bool := decide (a < b)
-@[irreducible] def intEq (a b : Int) : Bool := a == b
-@[irreducible] def textLt (a b : Text) : Bool := decide (a < b)
-@[irreducible] def textEq (a b : Text) : Bool := a == b
-@[irreducible] def nameEq (a b : String) : Bool := a == b
-theorem intLt_eq (a b : Int) : intLt a b = decide (a < b) := by unfold intLt; rfl
-theorem intEq_eq (a b : Int) : intEq a b = (a == b) := by unfold intEq; rfl
-theorem textLt_eq (a b : Text) : textLt a b = decide (a < b) := by unfold textLt; rfl
-theorem textEq_eq (a b : Text) : textEq a b = (a == b) := by unfold textEq; rfl
-theorem nameEq_eq (a b : String) : nameEq a b = (a == b) := by unfold nameEq; rfl
-end Prim
-
-
 
 mutual
 /-- Python `==` (never raises; objects compare by identity, which is not modelled: `false`) -/
-def Val.pyEq : Val → Val → Bool
-  | .none, .none => true
-  | .bool a, .bool b => a == b
-  | .bool a, .int b => Prim.intEq (if a then 1 else 0) b
-  | .int a, .bool b => Prim.intEq a (if b then 1 else 0)
-  | .int a, .int b => Prim.intEq a b
-  | .float a, .float b => Prim.textEq a b
-  | .str a, .str b => Prim.textEq a b
-  | .enum c m, .enum c' m' => Prim.nameEq c c' && Prim.nameEq m m'
-  | .uuid a, .uuid b => a == b
-  | .other a, .other b => a == b
+def Val.pyEq : Val → Val → Tree Bool
+  | .none, .none => .done true
+  | .bool a, .bool b => .done (a == b)
+  | .bool a, .int b => test (.intEq (if a then 1 else 0) b)
+  | .int a, .bool b => test (.intEq a (if b then 1 else 0))
+  | .int a, .int b => test (.intEq a b)
+  | .float a, .float b => test (.textEq a b)
+  | .str a, .str b => test (.textEq a b)
+  | .enum c m, .enum c' m' => .ask (.nameEq c c') (test (.nameEq m m')) (.done false)
+  | .uuid a, .uuid b => .done (a == b)
+  | .other a, .other b => .done (a == b)
   | .list a, .list b => Val.pyEqList a b
   | .tuple a, .tuple b => Val.pyEqList a b
-  | .cls a, .cls b => a == b
-  | _, _ => false
-def Val.pyEqList : List Val → List Val → Bool
-  | [], [] => true
-  | a :: as, b :: bs => Val.pyEq a b && Val.pyEqList as bs
-  | _, _ => false
+  | .cls a, .cls b => .done (a == b)
+  | _, _ => .done false
+def Val.pyEqList : List Val → List Val → Tree Bool
+  | [], [] => .done true
+  | a :: as, b :: bs => (Val.pyEq a b).bind (fun r => if r then Val.pyEqList as bs else .done false)
+  | _, _ => .done false
 end
 
 /-- `bool(v)` -/
-def Val.truthy : Val → Bool
-  | .none => false
-  | .bool b => b
-  | .int i => !Prim.intEq i 0
-  | .float t => !(t == "0.0".toList || t == "-0.0".toList)
-  | .str s => !s.isEmpty
-  | .list xs => !xs.isEmpty
-  | .tuple xs => !xs.isEmpty
-  | _ => true
+def Val.truthy : Val → Tree Bool
+  | .none => .done false
+  | .bool b => .done b
+  | .int i => .ask (.intEq i 0) (.done false) (.done true)
+  | .float t => .ask (.textEq t "0.0".toList) (.done false) (.ask (.textEq t "-0.0".toList) (.done false) (.done true))
+  | .str s => .ask (.textEmpty s) (.done false) (.done true)
+  | .list xs => .done (!xs.isEmpty)
+  | .tuple xs => .done (!xs.isEmpty)
+  | _ => .done true
+
+def Val.isNone : Val → Bool
+  | .none => true
+  | _ => false
+
+def Val.asBool? : Val → Option Bool
+  | .bool b => Option.some b
+  | _ => Option.none
 
 def lookup (env : Env) (x : String) : Option Val :=
   (env.find? (fun p => p.1 == x)).map (·.2)
@@ -103,8 +174,7 @@ def setVar (env : Env) (x : String) (v : Val) : Env :=
   if env.any (fun p => p.1 == x) then env.map (fun p => if p.1 == x then (x, v) else p)
   else env ++ [(x, v)]
 
-/-- a dictionary is a list of `(key, value)` 2-tuples tagged as `obj "dict"`; only
-    literals and read access occur in the fragment -/
+/-- a dictionary is a list of `(key, value)` 2-tuples tagged as `obj "dict"`; only literals and read access occur -/
 def mkDict (kvs : List (Val × Val)) : Val := .obj "dict" (kvs.map (fun kv => ("", .tuple [kv.1, kv.2])))
 
 def dictItems : List (String × Val) → List (Val × Val)
@@ -122,25 +192,32 @@ def iterate : Val → Except PyErr (List Val)
   | _ => .error .type
 
 /-- Python `<` -/
-def ltVal : Val → Val → Except PyErr Bool
-  | .int a, .int b => .ok (Prim.intLt a b)
-  | .bool a, .int b => .ok (Prim.intLt (if a then 1 else 0) b)
-  | .int a, .bool b => .ok (Prim.intLt a (if b then 1 else 0))
-  | .bool a, .bool b => .ok (!a && b)
-  | .str a, .str b => .ok (Prim.textLt a b)
-  | .float _, _ => .error (.unmodelled "float order")
-  | _, .float _ => .error (.unmodelled "float order")
-  | _, _ => .error .type
+def ltVal : Val → Val → M Bool
+  | .int a, .int b => M.ofTree (test (.intLt a b))
+  | .bool a, .int b => M.ofTree (test (.intLt (if a then 1 else 0) b))
+  | .int a, .bool b => M.ofTree (test (.intLt a (if b then 1 else 0)))
+  | .bool a, .bool b => M.ok (!a && b)
+  | .str a, .str b => M.ofTree (test (.textLt a b))
+  | .float _, _ => M.err (.unmodelled "float order")
+  | _, .float _ => M.err (.unmodelled "float order")
+  | _, _ => M.err .type
 
 def isInfix (p : Text) : Text → Bool
   | [] => p.isEmpty
   | c :: s => p.isPrefixOf (c :: s) || isInfix p s
 
-def containsVal (x : Val) : Val → Except PyErr Bool
+/-- `any(x == y for y in ys)` -/
+def anyEq (x : Val) : List Val → Tree Bool
+  | [] => .done false
+  | y :: ys => (Val.pyEq y x).bind (fun r => if r then .done true else anyEq x ys)
+
+def containsVal (x : Val) : Val → M Bool
   | .str s => match x with
-    | .str p => .ok (isInfix p s)
-    | _ => .error .type
-  | c => (iterate c).map (fun xs => xs.any (fun y => Val.pyEq y x))
+    | .str p => M.ok (isInfix p s)
+    | _ => M.err .type
+  | c => match iterate c with
+    | .ok xs => M.ofTree (anyEq x xs)
+    | .error e => M.err e
 
 /-- identity against the singletons the fragment tests with `is` -/
 def isSame : Val → Val → Except PyErr Bool
@@ -151,26 +228,24 @@ def isSame : Val → Val → Except PyErr Bool
   | .cls a, .cls b => .ok (a == b)
   | .cls _, _ => .ok false
   | _, .cls _ => .ok false
-  | .int a, .int b => if a == b then .error (.unmodelled "is on int") else .ok false
   | _, _ => .error (.unmodelled "is")
 
-def applyCmp (op : CmpOp) (a b : Val) : Except PyErr Bool :=
+def notM (x : M Bool) : M Bool := x.bind (fun b => M.ok (!b))
+def orEq (l : M Bool) (a b : Val) : M Bool := l.bind (fun r => if r then M.ok true else M.ofTree (Val.pyEq a b))
+
+def applyCmp (op : CmpOp) (a b : Val) : M Bool :=
   match op with
   | .lt => ltVal a b
   | .gt => ltVal b a
-  | .le => do
-      -- `a <= b` on the types the fragment compares is `a < b or a == b`
-      let l ← ltVal a b
-      .ok (l || Val.pyEq a b)
-  | .ge => do
-      let l ← ltVal b a
-      .ok (l || Val.pyEq a b)
-  | .eq => .ok (Val.pyEq a b)
-  | .ne => .ok (!Val.pyEq a b)
-  | .is_ => isSame a b
-  | .isNot => (isSame a b).map (!·)
+  -- `a <= b` on the types the fragment compares is `a < b or a == b`
+  | .le => orEq (ltVal a b) a b
+  | .ge => orEq (ltVal b a) a b
+  | .eq => M.ofTree (Val.pyEq a b)
+  | .ne => notM (M.ofTree (Val.pyEq a b))
+  | .is_ => M.ofExcept (isSame a b)
+  | .isNot => M.ofExcept ((isSame a b).map (!·))
   | .in_ => containsVal a b
-  | .notIn => (containsVal a b).map (!·)
+  | .notIn => notM (containsVal a b)
 
 /-! ### classes -/
 
@@ -202,25 +277,30 @@ def builtinNames : List String :=
   ["isinstance", "int", "float", "str", "bool", "len", "set", "list", "tuple", "UUID", "type", "dict"]
 
 /-- `isinstance(v, cls t)` -/
-def isInstance1 (P : Program) (H : Host) (v : Val) (t : String) : Bool :=
+def isInstance1 (P : Program) (v : Val) (t : String) : Tree Bool :=
   match v with
-  | .none => false
-  | .bool _ => t == "bool" || t == "int"
-  | .int _ => t == "int"
-  | .float _ => t == "float"
-  | .str _ => t == "str"
-  | .enum c _ => !builtinTypes.contains t && (Prim.nameEq t c || t == "Enum")
-  | .uuid _ => t == "UUID"
-  | .other _ => false
-  | .list _ => t == "list"
-  | .tuple _ => t == "tuple"
-  | .obj c _ => !builtinTypes.contains t && (mroOf P c).contains t
-  | .cls _ => t == "type"
+  | .none => .done false
+  | .bool _ => .done (t == "bool" || t == "int")
+  | .int _ => .done (t == "int")
+  | .float _ => .done (t == "float")
+  | .str _ => .done (t == "str")
+  | .enum c _ => if builtinTypes.contains t then .done false else if t == "Enum" then .done true else test (.nameEq t c)
+  | .uuid _ => .done (t == "UUID")
+  | .other _ => .done false
+  | .list _ => .done (t == "list")
+  | .tuple _ => .done (t == "tuple")
+  | .obj c _ => .done (!builtinTypes.contains t && (mroOf P c).contains t)
+  | .cls _ => .done (t == "type")
 
-def isInstance (P : Program) (H : Host) (v : Val) : Val → Except PyErr Bool
-  | .cls t => .ok (isInstance1 P H v t)
-  | .tuple ts => .ok (ts.any (fun t => match t with | .cls n => isInstance1 P H v n | _ => false))
-  | _ => .error .type
+def anyInstance (P : Program) (v : Val) : List Val → Tree Bool
+  | [] => .done false
+  | .cls n :: ts => (isInstance1 P v n).bind (fun r => if r then .done true else anyInstance P v ts)
+  | _ :: ts => anyInstance P v ts
+
+def isInstance (P : Program) (v : Val) : Val → M Bool
+  | .cls t => M.ofTree (isInstance1 P v t)
+  | .tuple ts => M.ofTree (anyInstance P v ts)
+  | _ => M.err .type
 
 def enumValue (H : Host) (c m : String) : Option Text :=
   ((H.enums.find? (fun p => p.1 == c)).bind (fun p => p.2.find? (fun q => q.1 == m))).map (·.2.toList)
@@ -236,7 +316,7 @@ def enumByName (H : Host) (c : String) (t : Text) : Option String :=
 def isEnumClass (H : Host) (c : String) : Bool := H.enums.any (fun p => p.1 == c)
 
 /-- Python `str(v)` where maf-lib relies on it -/
-def strOf (H : Host) : Val → Except PyErr Text
+def strOf : Val → Except PyErr Text
   | .none => .ok "None".toList
   | .bool true => .ok "True".toList
   | .bool false => .ok "False".toList
@@ -262,37 +342,31 @@ def handles (k : String) (e : PyErr) : Bool :=
   | .unmodelled _ => false            -- fuel / unmodelled constructs are never caught
   | _ => k == "Exception" || excKind k == e
 
-/-! ### builtins (pure) -/
+/-! ### builtins -/
 
-def callBuiltin (P : Program) (H : Host) (f : String) (args : List Val) : Except PyErr Val :=
+def callBuiltin (P : Program) (H : Host) (f : String) (args : List Val) : M Val :=
   match f, args with
-  | "isinstance", [v, t] => (isInstance P H v t).map Val.bool
-  | "int", [.str s] => match pyInt s with
-    | some i => .ok (.int i)
-    | none => .error .value
-  | "int", [.int i] => .ok (.int i)
-  | "int", [.bool b] => .ok (.int (if b then 1 else 0))
-  | "int", [.none] => .error .type
-  | "float", [.str s] => match H.floatParse s with
-    | some t => .ok (.float t)
-    | none => .error .value
-  | "float", [.none] => .error .type
-  | "str", [v] => (strOf H v).map Val.str
-  | "bool", [v] => .ok (.bool v.truthy)
-  | "len", [v] => (iterate v).map (fun xs => .int xs.length)
-  | "set", [v] => (iterate v).map (fun xs => .obj "set" (xs.map (fun x => ("", x))))
-  | "list", [v] => (iterate v).map Val.list
-  | "list", [] => .ok (.list [])
-  | "tuple", [v] => (iterate v).map Val.tuple
-  | "UUID", [.str s] => match pyUuid s with
-    | some n => .ok (.uuid n)
-    | none => .error .value
-  | "type", [.obj c _] => .ok (.cls c)
-  | "dict", kvs => .ok (mkDict (kvs.filterMap (fun kv => match kv with | .tuple [k, v] => some (k, v) | _ => none)))
-  | f, _ => .error (.unmodelled ("builtin " ++ f))
+  | "isinstance", [v, t] => (isInstance P v t).bind (fun b => M.ok (.bool b))
+  | "int", [.str s] => Tree.ask (.parses "int" s) (M.ok (.int ((pyInt s).getD 0))) (M.err .value)
+  | "int", [.int i] => M.ok (.int i)
+  | "int", [.bool b] => M.ok (.int (if b then 1 else 0))
+  | "int", [.none] => M.err .type
+  | "float", [.str s] => Tree.ask (.parses "float" s) (M.ok (.float ((H.floatParse s).getD []))) (M.err .value)
+  | "float", [.none] => M.err .type
+  | "str", [v] => M.ofExcept ((strOf v).map Val.str)
+  | "bool", [v] => (M.ofTree v.truthy).bind (fun b => M.ok (.bool b))
+  | "len", [v] => M.ofExcept ((iterate v).map (fun xs => .int xs.length))
+  | "set", [v] => M.ofExcept ((iterate v).map (fun xs => .obj "set" (xs.map (fun x => ("", x)))))
+  | "list", [v] => M.ofExcept ((iterate v).map Val.list)
+  | "list", [] => M.ok (.list [])
+  | "tuple", [v] => M.ofExcept ((iterate v).map Val.tuple)
+  | "UUID", [.str s] => Tree.ask (.parses "uuid" s) (M.ok (.uuid ((pyUuid s).getD 0))) (M.err .value)
+  | "type", [.obj c _] => M.ok (.cls c)
+  | "dict", kvs => M.ok (mkDict (kvs.filterMap (fun kv => match kv with | .tuple [k, v] => some (k, v) | _ => none)))
+  | f, _ => M.err (.unmodelled ("builtin " ++ f))
 
 /-- methods of built-in values -/
-def callValMethod (H : Host) (recv : Val) (m : String) (args : List Val) : Except PyErr Val :=
+def callValMethod (recv : Val) (m : String) (args : List Val) : Except PyErr Val :=
   match recv, m, args with
   | .str s, "upper", [] => .ok (.str (pyUpper s))
   | .str s, "capitalize", [] => .ok (.str (pyCapitalize s))
@@ -308,55 +382,53 @@ def callValMethod (H : Host) (recv : Val) (m : String) (args : List Val) : Excep
   | .obj "dict" fs, "items", [] => .ok (.list ((dictItems fs).map (fun kv => .tuple [kv.1, kv.2])))
   | _, m, _ => .error (.unmodelled ("method " ++ m))
 
+/-- `d[k]` -/
+def dictGet (k : Val) : List (Val × Val) → M Val
+  | [] => M.err .key
+  | (k', v) :: rest => (M.ofTree (Val.pyEq k' k)).bind (fun r => if r then M.ok v else dictGet k rest)
+
 /-! ### loops over values (structural on the list, not on fuel) -/
 
-def forLoop (step : Env → Nat → Val → Except PyErr (Env × Option Val)) :
-    Env → Nat → List Val → Except PyErr (Env × Option Val)
-  | env, _, [] => .ok (env, none)
+def forLoop (step : Env → Nat → Val → M (Env × Option Val)) : Env → Nat → List Val → M (Env × Option Val)
+  | env, _, [] => M.ok (env, none)
   | env, i, v :: vs =>
-    match step env i v with
-    | .ok (env', none) => forLoop step env' (i + 1) vs
-    | r => r
+    (step env i v).bind (fun r => match r with
+      | (env', none) => forLoop step env' (i + 1) vs
+      | r => M.ok r)
 
-/-- `any(f x for x in xs)` with Python's short-circuit: an exception after a hit is not raised -/
-def anyM (f : Val → Except PyErr Bool) : List Val → Except PyErr Bool
-  | [] => .ok false
-  | v :: vs => match f v with
-    | .ok true => .ok true
-    | .ok false => anyM f vs
-    | .error e => .error e
+/-- `any(f x for x in xs)` with Python's short-circuit -/
+def anyM (f : Val → M Bool) : List Val → M Bool
+  | [] => M.ok false
+  | v :: vs => (f v).bind (fun r => if r then M.ok true else anyM f vs)
 
-def allM (f : Val → Except PyErr Bool) : List Val → Except PyErr Bool
-  | [] => .ok true
-  | v :: vs => match f v with
-    | .ok false => .ok false
-    | .ok true => allM f vs
-    | .error e => .error e
+def allM (f : Val → M Bool) : List Val → M Bool
+  | [] => M.ok true
+  | v :: vs => (f v).bind (fun r => if r then allM f vs else M.ok false)
+
+def mapValsM (f : Val → M Val) : List Val → M (List Val)
+  | [] => M.ok []
+  | v :: vs => (f v).bind (fun w => (mapValsM f vs).bind (fun ws => M.ok (w :: ws)))
+
+def mapExprsM (ev : Expr → M Val) : List Expr → M (List Val)
+  | [] => M.ok []
+  | e :: es => (ev e).bind (fun w => (mapExprsM ev es).bind (fun ws => M.ok (w :: ws)))
 
 /-- `a and b and …`: the first falsy operand, else the last -/
-def andLoop (ev : Expr → Except PyErr Val) : List Expr → Except PyErr Val
-  | [] => .ok (.bool true)
+def andLoop (ev : Expr → M Val) : List Expr → M Val
+  | [] => M.ok (.bool true)
   | [e] => ev e
-  | e :: es => match ev e with
-    | .ok v => if v.truthy then andLoop ev es else .ok v
-    | .error x => .error x
+  | e :: es => (ev e).bind (fun v => (M.ofTree v.truthy).bind (fun t => if t then andLoop ev es else M.ok v))
 
-def orLoop (ev : Expr → Except PyErr Val) : List Expr → Except PyErr Val
-  | [] => .ok (.bool false)
+def orLoop (ev : Expr → M Val) : List Expr → M Val
+  | [] => M.ok (.bool false)
   | [e] => ev e
-  | e :: es => match ev e with
-    | .ok v => if v.truthy then .ok v else orLoop ev es
-    | .error x => .error x
+  | e :: es => (ev e).bind (fun v => (M.ofTree v.truthy).bind (fun t => if t then M.ok v else orLoop ev es))
 
 /-- `l op₁ e₁ op₂ e₂ …` -/
-def cmpChain (ev : Expr → Except PyErr Val) : Val → List (CmpOp × Expr) → Except PyErr Val
-  | _, [] => .ok (.bool true)
-  | l, (op, e) :: rest => match ev e with
-    | .error x => .error x
-    | .ok r => match applyCmp op l r with
-      | .error x => .error x
-      | .ok false => .ok (.bool false)
-      | .ok true => cmpChain ev r rest
+def cmpChain (ev : Expr → M Val) : Val → List (CmpOp × Expr) → M Val
+  | _, [] => M.ok (.bool true)
+  | l, (op, e) :: rest =>
+    (ev e).bind (fun r => (applyCmp op l r).bind (fun b => if b then cmpChain ev r rest else M.ok (.bool false)))
 
 def bindParams : List String → List Val → Option Env
   | [], [] => some []
@@ -371,82 +443,110 @@ def setField (o : Val) (a : String) (v : Val) : Option Val :=
   | .obj c fs => some (.obj c (setVar fs a v))
   | _ => none
 
+def subVals : Val → Val → Except PyErr Val
+  | .int x, .int y => .ok (.int (x - y))
+  | .bool x, .bool y => .ok (.int ((if x then 1 else 0) - (if y then 1 else 0)))
+  | .int x, .bool y => .ok (.int (x - (if y then 1 else 0)))
+  | .bool x, .int y => .ok (.int ((if x then 1 else 0) - y))
+  | _, _ => .error .type
+
+def addVals : Val → Val → Except PyErr Val
+  | .int x, .int y => .ok (.int (x + y))
+  | .str x, .str y => .ok (.str (x ++ y))
+  | .list x, .list y => .ok (.list (x ++ y))
+  | _, _ => .error .type
+
+def indexVal (H : Host) : Val → Val → M Val
+  | .list xs, .int j => if 0 ≤ j then (match xs[j.toNat]? with | some x => M.ok x | none => M.err .index) else M.err (.unmodelled "negative index")
+  | .tuple xs, .int j => if 0 ≤ j then (match xs[j.toNat]? with | some x => M.ok x | none => M.err .index) else M.err (.unmodelled "negative index")
+  | .obj "dict" fs, k => dictGet k (dictItems fs)
+  | .cls c, .str t =>
+    -- `EnumCls[text]`
+    if isEnumClass H c then (match enumByName H c t with
+      | some m => M.ok (.enum c m)
+      | none => M.err .key)
+    else M.err .type
+  | _, _ => M.err .type
+
 /-! ### the interpreter -/
 
 mutual
 
-/-- call `f` (defined in some class) with the receiver / class object already first in `args`;
+/-- call `f` with the receiver / class object already first in `args`;
     result: returned value (`None` when the body falls off the end) and the callee's final environment -/
-def callFn (P : Program) (H : Host) : Nat → FnDef → List Val → Except PyErr (Val × Env)
-  | 0, _, _ => .error outOfFuel
+def callFn (P : Program) (H : Host) : Nat → FnDef → List Val → M (Val × Env)
+  | 0, _, _ => M.err outOfFuel
   | n + 1, f, args =>
     match bindParams f.params args with
-    | none => .error .type
+    | none => M.err .type
     | some env =>
-      match execStmts P H n env f.body with
-      | .ok (env', some v) => .ok (v, env')
-      | .ok (env', none) => .ok (.none, env')
-      | .error e => .error e
+      (execStmts P H n env f.body).bind (fun r => match r with
+        | (env', some v) => M.ok (v, env')
+        | (env', none) => M.ok (.none, env'))
 termination_by structural n => n
 
 /-- `recv.m(args)` with `recv` already evaluated: value and the receiver after the call -/
-def callMethod (P : Program) (H : Host) : Nat → Val → String → List Val → Except PyErr (Val × Option Val)
-  | 0, _, _, _ => .error outOfFuel
+def callMethod (P : Program) (H : Host) : Nat → Val → String → List Val → M (Val × Option Val)
+  | 0, _, _, _ => M.err outOfFuel
   | n + 1, recv, m, args =>
     match recv with
-    | .obj "dict" _ => (callValMethod H recv m args).map (fun v => (v, none))
+    | .obj "dict" _ => (M.ofExcept (callValMethod recv m args)).bind (fun v => M.ok (v, none))
     | .obj c _ =>
       match resolveMethod P c m with
-      | none => .error .attribute
+      | none => M.err .attribute
       | some (_, f) =>
         let first := match f.kind with
           | .instance => [recv]
           | .classmethod => [.cls c]
           | .staticmethod => []
-        match callFn P H n f (first ++ args) with
-        | .ok (v, env') => .ok (v, if f.kind == .instance then lookup env' (f.params.headD "self") else none)
-        | .error e => .error e
+        (callFn P H n f (first ++ args)).bind (fun r =>
+          M.ok (r.1, if f.kind == .instance then lookup r.2 (f.params.headD "self") else none))
     | .cls c =>
       match resolveMethod P c m with
-      | none => .error .attribute
+      | none => M.err .attribute
       | some (_, f) =>
         let first := match f.kind with
           | .instance => []            -- unbound call `C.m(obj, …)`: the caller passes the instance
           | .classmethod => [.cls c]
           | .staticmethod => []
-        (callFn P H n f (first ++ args)).map (fun r => (r.1, none))
-    | v => (callValMethod H v m args).map (fun r => (r, none))
+        (callFn P H n f (first ++ args)).bind (fun r => M.ok (r.1, none))
+    | v => (M.ofExcept (callValMethod v m args)).bind (fun r => M.ok (r, none))
 termination_by structural n => n
 
-def evalExpr (P : Program) (H : Host) : Nat → Env → Expr → Except PyErr Val
-  | 0, _, _ => .error outOfFuel
+def evalExpr (P : Program) (H : Host) : Nat → Env → Expr → M Val
+  | 0, _, _ => M.err outOfFuel
   | n + 1, env, e =>
     match e with
-    | .const v => .ok v
-    | .message => .ok (.str "<message>".toList)
+    | .const v => M.ok v
+    | .message => M.ok (.str "<message>".toList)
     | .name x => match lookup env x with
-      | some v => .ok v
-      | none => .ok (.cls x)
-    | .attr e a => do
-        let v ← evalExpr P H n env e
+      | some v => M.ok v
+      | none => M.ok (.cls x)
+    | .attr e a =>
+      (evalExpr P H n env e).bind (fun v =>
         match v with
         | .obj c fs =>
           match lookup fs a with
-          | some w => .ok w
+          | some w => M.ok w
           | none =>
-            -- a property (translated as a zero-argument instance method) or a bound constant hook
+            -- a property (translated as a one-parameter instance method)
             match resolveMethod P c a with
-            | some (_, f) => if f.params.length == 1 then (callFn P H n f [v]).map (·.1) else .error .attribute
-            | none => .error .attribute
+            | some (_, f) => if f.params.length == 1 then (callFn P H n f [v]).bind (fun r => M.ok r.1) else M.err .attribute
+            | none => M.err .attribute
         | .enum c m => if a == "value" then (match enumValue H c m with
-                                              | some t => .ok (.str t)
-                                              | none => .error .attribute)
-                       else if a == "name" then .ok (.str m.toList)
-                       else .error .attribute
-        | .cls c => if a == "__name__" then .ok (.str c.toList) else .error .attribute
-        | _ => .error .attribute
-    | .call f args => do
-        let vs ← args.mapM (evalExpr P H n env)
+                                              | some t => M.ok (.str t)
+                                              | none => M.err .attribute)
+                       else if a == "name" then M.ok (.str m.toList)
+                       else M.err .attribute
+        | .cls c =>
+          if a == "__name__" then M.ok (.str c.toList)
+          -- `EnumCls.Member`
+          else match enumByName H c a.toList with
+            | some m => M.ok (.enum c m)
+            | none => M.err .attribute
+        | _ => M.err .attribute)
+    | .call f args =>
+      (mapExprsM (evalExpr P H n env) args).bind (fun vs =>
         -- a name bound in the environment to a class (e.g. `enum_cls(value)`, `column_cls("", v)`)
         let target := match lookup env f with
           | some (.cls c) => c
@@ -459,152 +559,112 @@ def evalExpr (P : Program) (H : Host) : Nat → Env → Expr → Except PyErr Va
             | some (_, f) =>
               (callFn P H n f (Val.obj target [] :: vs)).bind (fun r =>
                 match lookup r.2 (f.params.headD "self") with
-                | some o => .ok o
-                | none => .error .attribute)
-            | none => .ok (.obj target [])
+                | some o => M.ok o
+                | none => M.err .attribute)
+            | none => M.ok (.obj target [])
           | none =>
             if isEnumClass H target then
               match vs with
               | [.str t] => match enumByValue H target t with
-                | some m => .ok (.enum target m)
-                | none => .error .value
-              | _ => .error .value
-            else .error (.unmodelled ("call " ++ target))
-    | .method recv m args => do
-        let r ← evalExpr P H n env recv
-        let vs ← args.mapM (evalExpr P H n env)
-        (callMethod P H n r m vs).map (·.1)
-    | .superCall c m args => do
-        let vs ← args.mapM (evalExpr P H n env)
+                | some m => M.ok (.enum target m)
+                | none => M.err .value
+              | _ => M.err .value
+            else M.err (.unmodelled ("call " ++ target)))
+    | .method recv m args =>
+      (evalExpr P H n env recv).bind (fun r =>
+        (mapExprsM (evalExpr P H n env) args).bind (fun vs =>
+          (callMethod P H n r m vs).bind (fun x => M.ok x.1)))
+    | .superCall c m args =>
+      (mapExprsM (evalExpr P H n env) args).bind (fun vs =>
         -- the instance (or class) the enclosing method was called on is its first parameter
         match env.head? with
         | some (_, .obj ic fs) =>
           match resolveIn P m (mroAfter P ic c) with
-          | some (_, f) => (callFn P H n f (Val.obj ic fs :: vs)).map (·.1)
-          | none => .error .attribute
+          | some (_, f) => (callFn P H n f (Val.obj ic fs :: vs)).bind (fun r => M.ok r.1)
+          | none => M.err .attribute
         | some (_, .cls ic) =>
           match resolveIn P m (mroAfter P ic c) with
-          | some (_, f) => (callFn P H n f ((if f.kind == .staticmethod then [] else [Val.cls ic]) ++ vs)).map (·.1)
-          | none => .error .attribute
-        | _ => .error .type
-    | .cmp l rest => do
-        let lv ← evalExpr P H n env l
-        cmpChain (evalExpr P H n env) lv rest
+          | some (_, f) => (callFn P H n f ((if f.kind == .staticmethod then [] else [Val.cls ic]) ++ vs)).bind (fun r => M.ok r.1)
+          | none => M.err .attribute
+        | _ => M.err .type)
+    | .cmp l rest => (evalExpr P H n env l).bind (fun lv => cmpChain (evalExpr P H n env) lv rest)
     | .and es => andLoop (evalExpr P H n env) es
     | .or es => orLoop (evalExpr P H n env) es
-    | .not e => do
-        let v ← evalExpr P H n env e
-        .ok (.bool (!v.truthy))
-    | .sub l r => do
-        let a ← evalExpr P H n env l
-        let b ← evalExpr P H n env r
-        match a, b with
-        | .int x, .int y => .ok (.int (x - y))
-        | .bool x, .bool y => .ok (.int ((if x then 1 else 0) - (if y then 1 else 0)))
-        | .int x, .bool y => .ok (.int (x - (if y then 1 else 0)))
-        | .bool x, .int y => .ok (.int ((if x then 1 else 0) - y))
-        | _, _ => .error .type
-    | .add l r => do
-        let a ← evalExpr P H n env l
-        let b ← evalExpr P H n env r
-        match a, b with
-        | .int x, .int y => .ok (.int (x + y))
-        | .str x, .str y => .ok (.str (x ++ y))
-        | .list x, .list y => .ok (.list (x ++ y))
-        | _, _ => .error .type
-    | .ifExp c a b => do
-        let cv ← evalExpr P H n env c
-        if cv.truthy then evalExpr P H n env a else evalExpr P H n env b
-    | .tuple es => (es.mapM (evalExpr P H n env)).map Val.tuple
-    | .list es => (es.mapM (evalExpr P H n env)).map Val.list
-    | .subscript e i => do
-        let v ← evalExpr P H n env e
-        let k ← evalExpr P H n env i
-        match v, k with
-        | .list xs, .int j => if 0 ≤ j then (match xs[j.toNat]? with | some x => .ok x | none => .error .index) else .error (.unmodelled "negative index")
-        | .tuple xs, .int j => if 0 ≤ j then (match xs[j.toNat]? with | some x => .ok x | none => .error .index) else .error (.unmodelled "negative index")
-        | .obj "dict" fs, k => match (dictItems fs).find? (fun kv => Val.pyEq kv.1 k) with
-          | some kv => .ok kv.2
-          | none => .error .key
-        | .cls c, .str t =>
-          -- `EnumCls[text]`
-          if isEnumClass H c then (match enumByName H c t with
-            | some m => .ok (.enum c m)
-            | none => .error .key)
-          else .error .type
-        | _, _ => .error .type
-    | .quant isAll x it cond => do
-        let xs ← (evalExpr P H n env it).bind iterate
-        let f := fun v => (evalExpr P H n (setVar env x v) cond).map Val.truthy
-        (if isAll then allM f xs else anyM f xs).map Val.bool
-    | .listComp elt x it => do
-        let xs ← (evalExpr P H n env it).bind iterate
-        (xs.mapM (fun v => evalExpr P H n (setVar env x v) elt)).map Val.list
+    | .not e => (evalExpr P H n env e).bind (fun v => (M.ofTree v.truthy).bind (fun t => M.ok (.bool (!t))))
+    | .sub l r => (evalExpr P H n env l).bind (fun a => (evalExpr P H n env r).bind (fun b => M.ofExcept (subVals a b)))
+    | .add l r => (evalExpr P H n env l).bind (fun a => (evalExpr P H n env r).bind (fun b => M.ofExcept (addVals a b)))
+    | .ifExp c a b =>
+      (evalExpr P H n env c).bind (fun cv => (M.ofTree cv.truthy).bind (fun t =>
+        if t then evalExpr P H n env a else evalExpr P H n env b))
+    | .tuple es => (mapExprsM (evalExpr P H n env) es).bind (fun vs => M.ok (.tuple vs))
+    | .list es => (mapExprsM (evalExpr P H n env) es).bind (fun vs => M.ok (.list vs))
+    | .subscript e i => (evalExpr P H n env e).bind (fun v => (evalExpr P H n env i).bind (fun k => indexVal H v k))
+    | .quant isAll x it cond =>
+      (evalExpr P H n env it).bind (fun iv => (M.ofExcept (iterate iv)).bind (fun xs =>
+        let f := fun v => (evalExpr P H n (setVar env x v) cond).bind (fun c => M.ofTree c.truthy)
+        (if isAll then allM f xs else anyM f xs).bind (fun b => M.ok (.bool b))))
+    | .listComp elt x it =>
+      (evalExpr P H n env it).bind (fun iv => (M.ofExcept (iterate iv)).bind (fun xs =>
+        (mapValsM (fun v => evalExpr P H n (setVar env x v) elt) xs).bind (fun vs => M.ok (.list vs))))
 termination_by structural n => n
 
 /-- run statements; `some v` = a `return v` was executed -/
-def execStmts (P : Program) (H : Host) : Nat → Env → List Stmt → Except PyErr (Env × Option Val)
-  | 0, _, _ => .error outOfFuel
-  | _ + 1, env, [] => .ok (env, none)
+def execStmts (P : Program) (H : Host) : Nat → Env → List Stmt → M (Env × Option Val)
+  | 0, _, _ => M.err outOfFuel
+  | _ + 1, env, [] => M.ok (env, none)
   | n + 1, env, s :: rest =>
-    match execStmt P H n env s with
-    | .ok (env', none) => execStmts P H n env' rest
-    | r => r
+    (execStmt P H n env s).bind (fun r => match r with
+      | (env', none) => execStmts P H n env' rest
+      | r => M.ok r)
 termination_by structural n => n
 
-def execStmt (P : Program) (H : Host) : Nat → Env → Stmt → Except PyErr (Env × Option Val)
-  | 0, _, _ => .error outOfFuel
+def execStmt (P : Program) (H : Host) : Nat → Env → Stmt → M (Env × Option Val)
+  | 0, _, _ => M.err outOfFuel
   | n + 1, env, s =>
     match s with
-    | .pass => .ok (env, none)
+    | .pass => M.ok (env, none)
     | .assign x e =>
       match e with
       | .method (.name r) m args =>
         -- a call on a named receiver: the receiver's mutations are written back
-        (do
-          let rv ← evalExpr P H n env (.name r)
-          let vs ← args.mapM (evalExpr P H n env)
-          let (v, r') ← callMethod P H n rv m vs
-          let env1 := match r' with | some o => setVar env r o | none => env
-          .ok (setVar env1 x v, none))
-      | _ => (evalExpr P H n env e).map (fun v => (setVar env x v, none))
-    | .assignAttr o a e => do
-        let v ← evalExpr P H n env e
+        (evalExpr P H n env (.name r)).bind (fun rv =>
+          (mapExprsM (evalExpr P H n env) args).bind (fun vs =>
+            (callMethod P H n rv m vs).bind (fun res =>
+              let env1 := match res.2 with | some o => setVar env r o | none => env
+              M.ok (setVar env1 x res.1, none))))
+      | _ => (evalExpr P H n env e).bind (fun v => M.ok (setVar env x v, none))
+    | .assignAttr o a e =>
+      (evalExpr P H n env e).bind (fun v =>
         match (lookup env o).bind (fun ov => setField ov a v) with
-        | some ov' => .ok (setVar env o ov', none)
-        | none => .error .attribute
+        | some ov' => M.ok (setVar env o ov', none)
+        | none => M.err .attribute)
     | .expr e =>
       match e with
       | .method (.name r) m args =>
-        (do
-          let rv ← evalExpr P H n env (.name r)
-          let vs ← args.mapM (evalExpr P H n env)
-          match rv, m, vs with
-          | .list xs, "append", [v] => .ok (setVar env r (.list (xs ++ [v])), none)
-          | _, _, _ =>
-            let (_, r') ← callMethod P H n rv m vs
-            .ok (match r' with | some o => setVar env r o | none => env, none))
-      | _ => (evalExpr P H n env e).map (fun _ => (env, none))
-    | .ret e => (evalExpr P H n env e).map (fun v => (env, some v))
-    | .raise k => .error (excKind k)
-    | .assert_ e => do
-        let v ← evalExpr P H n env e
-        if v.truthy then .ok (env, none) else .error .assertion
-    | .ifS c t e => do
-        let cv ← evalExpr P H n env c
-        if cv.truthy then execStmts P H n env t else execStmts P H n env e
-    | .forS idx x it body => do
-        let xs ← (evalExpr P H n env it).bind iterate
+        (evalExpr P H n env (.name r)).bind (fun rv =>
+          (mapExprsM (evalExpr P H n env) args).bind (fun vs =>
+            match rv, m, vs with
+            | .list xs, "append", [v] => M.ok (setVar env r (.list (xs ++ [v])), none)
+            | _, _, _ =>
+              (callMethod P H n rv m vs).bind (fun res =>
+                M.ok (match res.2 with | some o => setVar env r o | none => env, none))))
+      | _ => (evalExpr P H n env e).bind (fun _ => M.ok (env, none))
+    | .ret e => (evalExpr P H n env e).bind (fun v => M.ok (env, some v))
+    | .raise k => M.err (excKind k)
+    | .assert_ e => (evalExpr P H n env e).bind (fun v => (M.ofTree v.truthy).bind (fun t =>
+        if t then M.ok (env, none) else M.err .assertion))
+    | .ifS c t e => (evalExpr P H n env c).bind (fun cv => (M.ofTree cv.truthy).bind (fun b =>
+        if b then execStmts P H n env t else execStmts P H n env e))
+    | .forS idx x it body =>
+      (evalExpr P H n env it).bind (fun iv => (M.ofExcept (iterate iv)).bind (fun xs =>
         forLoop (fun env i v =>
           let env1 := match idx with | some ix => setVar env ix (.int i) | none => env
-          execStmts P H n (setVar env1 x v) body) env 0 xs
+          execStmts P H n (setVar env1 x v) body) env 0 xs))
     | .tryS body hs =>
-      match execStmts P H n env body with
-      | .ok r => .ok r
-      | .error e =>
+      M.tryCatch (execStmts P H n env body) (fun e =>
         match hs.find? (fun h => handles h.1 e) with
         | some h => execStmts P H n env h.2
-        | none => .error e
+        | none => M.err e)
 termination_by structural n => n
 
 end
@@ -612,24 +672,15 @@ end
 /-- the fuel every theorem and the driver use: far above the nesting depth of any translated body -/
 def FUEL : Nat := 64
 
-/-- a Boolean result compared with the expected one; the head is a `Bool`, so kernel evaluation is forced through the
-    whole run (used to state evaluation lemmas whose proofs are case splits on the primitive tests) -/
-def forcedBool (r : Except PyErr (Val × Env)) (expected : Bool) : Bool :=
-  match r with
-  | .ok (v, _) => v.truthy == expected
-  | .error _ => false
-
-theorem forcedBool_spec {r : Except PyErr (Val × Env)} {b : Bool} (h : forcedBool r b = true) :
-    r.map (fun x => x.1.truthy) = .ok b := by
-  unfold forcedBool at h
-  split at h
-  · simp only [Except.map]; congr 1; exact eq_of_beq h
-  · cases h
-
-/-- call method `m` of class `c` on explicit arguments (receiver / class object first where the kind needs one) -/
-def run (P : Program) (H : Host) (c m : String) (args : List Val) : Except PyErr (Val × Env) :=
+/-- the decision tree of calling method `m` of class `c` on explicit arguments (receiver / class object first where
+    the kind needs one) -/
+def runTree (P : Program) (H : Host) (c m : String) (args : List Val) : M (Val × Env) :=
   match (findClass P c).bind (fun d => (d.methods.find? (fun p => p.1 == m)).map (·.2)) with
   | some f => callFn P H FUEL f args
-  | none => .error .attribute
+  | none => M.err .attribute
+
+/-- the meaning of that call -/
+def run (P : Program) (H : Host) (c m : String) (args : List Val) : Except PyErr (Val × Env) :=
+  Tree.eval H (runTree P H c m args)
 
 end PyIR
